@@ -906,6 +906,9 @@ def call_method(ex, recv, name, args, kwargs):
         m = CLASS_METHOD.get(name)
         if m is not None:
             return m(ex, recv, args, kwargs)
+    if isinstance(recv, (dict, list, set)) and name in ("pop", "setdefault", "update", "append", "extend", "insert", "remove", "clear", "add", "discard",
+                                                        "popitem", "sort", "reverse", "move_to_end", "__setitem__", "__delitem__"):
+        ex.note_module_state_write(recv)
     if isinstance(recv, dict) and name in ("get", "items", "keys", "values", "pop", "__contains__", "setdefault", "update", "copy"):
         if name == "get":
             return dict_get(ex, recv, args[0], args[1] if len(args) > 1 else None)
@@ -1156,6 +1159,7 @@ def setitem(ex, obj, key, v):
         call_method(ex, obj, "__setitem__", [key, v], {})
         return
     if isinstance(obj, (list, dict)) and all_concrete([key]):
+        ex.note_module_state_write(obj)
         try:
             obj[key] = v
         except IndexError:
